@@ -4,6 +4,7 @@ from contextvars import ContextVar
 
 from .interpret import Immediate, Interactor, Total
 from .selector import check_element, select, verify
+from .tags import parse_tags
 from .transform import SyncedStackedTransforms, transform
 from .utils import autocreate, is_tooled, keyword_decorator
 
@@ -20,7 +21,8 @@ def fits_selector(pfn, selector):
             outer scope.
     """
     fname = pfn
-    fcat = pfn.__annotations__.get("return", None)
+    # The tags may be given as a string, like for variables
+    fcat = parse_tags(pfn.__annotations__.get("return", None))
     fvars = pfn.__ptera_info__
 
     if not check_element(selector.element, fname, fcat):
